@@ -129,6 +129,20 @@ AccountIsolation(e, s, s2) ==
 \* code under test must never panic in these operations
 NoPanic(e) == Check(e.res # "panic", "C06", "NoPanic", e, IF Has(e, "detail") THEN e.detail ELSE "")
 
+\* C15: the keys a step hands out for NEW outputs, read off what the step recorded - also when the record it wrote
+\* replaced an existing one under the same key (an overwritten record is no new key, but it is a re-used path):
+\*  - the change keys planned by a context the step created,
+\*  - the outputs linked to a log entry the step created and still awaited (Unconfirmed)
+NewCtxKeys(s, s2, w, sl) ==
+  IF sl \in DOMAIN s2.w[w].ctxs /\ sl \notin DOMAIN s.w[w].ctxs
+  THEN {s2.w[w].ctxs[sl].outs[i].k : i \in DOMAIN s2.w[w].ctxs[sl].outs} ELSE {}
+NewEntryOutKeys(s, s2, w) ==
+  {k \in DOMAIN s2.w[w].outs :
+     /\ s2.w[w].outs[k].st = "Unconfirmed"
+     /\ \E t \in (DOMAIN s2.w[w].txs) \ (DOMAIN s.w[w].txs) :
+           s2.w[w].outs[k].tx = s2.w[w].txs[t].id /\ s2.w[w].outs[k].acct = s2.w[w].txs[t].acct}
+KeysFresh(K, w, e, what) == Check(\A k \in K : PathFresh(hv, w, k), "C15", "PathsUnique", e, what)
+
 \* ------------------------------------------------------------- the events
 \* a step the harness could not execute at all (res = "skip": e.g. the message it needs was never
 \* produced on the real code) carries no observation of the operation: it is consumed by TSkipped
@@ -201,6 +215,7 @@ TInitSend ==
   /\ LET e == E  w == e.w  a == InitArgs(e, S2) IN
      /\ IF Ok(e)
         THEN /\ SendContract(e, st, S2)
+             /\ KeysFresh(NewCtxKeys(st, S2, w, e.sl), w, e, "init_send:planned")
              /\ Check(SelectAvoidsReserved(st, S2, w, e.sl), "C03", "SelectAvoidsReserved", e, "")
              /\ MatchState(LastOf(InitSend(st, w, a).steps), e, "InitSend")
         ELSE \* an error persists nothing that reserves funds
@@ -254,6 +269,7 @@ TReceive ==
                  /\ Check(e.ret.own_only, "C07", "ReplyOwnDataOnly", e, "")
                  /\ Check(\A k \in (DOMAIN S2.w[w].outs) \ (DOMAIN st.w[w].outs) : PathFresh(hv, w, k),
                           "C15", "PathsUnique", e, "receive")
+                 /\ KeysFresh(NewEntryOutKeys(st, S2, w), w, e, "receive:recorded")
      /\ (MustRefuseTtl(st, w, e.ttl)) => Check(~Ok(e) /\ S2.w[w] = st.w[w], "C17", "ExpiredRefused", e, "receive")
      /\ (MustNotRefuseTtl(st, w, e.ttl)) => Check(e.res # "err:expired", "C17", "NotExpiredUntouched", e, "receive")
      /\ CheckMatch((r.res = "ok") = Ok(e), e, "Receive:res:" \o r.res)
@@ -530,6 +546,7 @@ TIssueInvoice ==
          r == IssueInvoice(st, w, a)
          newK == (DOMAIN S2.w[w].outs) \ (DOMAIN st.w[w].outs) IN
      /\ Ok(e) => Check(\A k \in newK : PathFresh(hv, w, k), "C15", "PathsUnique", e, "issue_invoice")
+     /\ Ok(e) => KeysFresh(NewEntryOutKeys(st, S2, w), w, e, "issue_invoice:recorded")
      /\ (~Ok(e)) => Check(LockedKeys(S2, w) \subseteq LockedKeys(st, w), "C01", "ErrPersistsNothing", e, "issue_invoice")
      /\ Ok(e) => MatchState(LastOf(r.steps), e, "IssueInvoice")
      /\ Step(hv)
@@ -550,6 +567,7 @@ TProcessInvoice ==
      /\ (MustRefuseTtl(st, w, e.ttl)) => Check(~Ok(e) /\ S2.w[w] = st.w[w], "C17", "ExpiredRefused", e, "process_invoice")
      /\ (MustNotRefuseTtl(st, w, e.ttl)) => Check(e.res # "err:expired", "C17", "NotExpiredUntouched", e, "process_invoice")
      /\ Ok(e) => Check(SelectAvoidsReserved(st, S2, w, e.sl), "C03", "SelectAvoidsReserved", e, "process_invoice")
+     /\ Ok(e) => KeysFresh(NewCtxKeys(st, S2, w, e.sl), w, e, "process_invoice:planned")
      /\ Ok(e) => Check(LockedKeys(S2, w) \subseteq LockedKeys(st, w), "C03", "PayInvoiceLocksNothing", e, "")
      /\ (~Ok(e)) => Check(DOMAIN S2.w[w].ctxs = DOMAIN st.w[w].ctxs /\ LockedKeys(S2, w) \subseteq LockedKeys(st, w),
                           "C01", "ErrPersistsNothing", e, "process_invoice")
